@@ -11,6 +11,7 @@ B  report: the second tuple element is R / N with N = norm(rhs); R is the
 import os
 
 import ir
+import inline
 from ir import walk, unwrap, show, access_path
 from effects import PRIMS, prim_name, classify_coef, uses_of, aliases_of, locate
 from framework import Check
@@ -30,7 +31,8 @@ def solver_functions(units):
             if f.cls and f.cls.startswith('amgcl::solver::') and f.q.endswith('::operator()') and len(f.params) == 4 and f.cfg:
                 name = f.cls.split('::')[-1]
                 if name in SOLVERS:
-                    yield name, f
+                    # private helpers of the solver class (extracted methods) are analysed as part of operator()
+                    yield name, inline.expand(f, inline.same_class_helper(keep=('norm', 'operator()')))
 
 
 def modifications(f, d):
